@@ -4,6 +4,7 @@ import (
 	"encoding/json"
 	"errors"
 	"fmt"
+	"html/template"
 	"io"
 	"math"
 	"strconv"
@@ -153,6 +154,26 @@ func (s *ItemSpec) Make() Made {
 		m.Item = errors.New(string(s.Str))
 	case "dur":
 		m.Item = time.Duration(s.Num)
+	case "anonG":
+		// unnamed struct types: no name, no package path - but the methods of their embedded fields are promoted
+		m.Item = struct{ VG_0 }{VG_0{G: string(s.Str), S: "<wrong: field S>"}}
+	case "anonPS":
+		m.Item = struct {
+			*PS_0
+			N int
+		}{&PS_0{S: string(s.Str)}, 7}
+	case "anonSE":
+		m.Item = struct{ VSE_0 }{VSE_0{S: string(s.Str), E: "<wrong: Error>"}}
+	case "tplhtml":
+		m.Item = template.HTML(s.Str)
+	case "tpljs":
+		m.Item = template.JS(s.Str)
+	case "tplurl":
+		m.Item = template.URL(s.Str)
+	case "tplattr":
+		m.Item = template.HTMLAttr(s.Str)
+	case "jsonnumber":
+		m.Item = json.Number(s.Str)
 	case "aggslice":
 		tags := []string{string(s.Str), "tag"}
 		m.Item = AggSlice{Name: "agg", Tags: tags}
@@ -297,6 +318,8 @@ func (s *ItemSpec) TextWith(f *Fields) string {
 		return "<nil NilSafe>"
 	case "cell", "cellptr":
 		return s.Inner.Text()
+	case "anonG", "anonPS", "anonSE", "tplhtml", "tpljs", "tplurl", "tplattr", "jsonnumber":
+		return string(s.Str) // promoted GoString / String (String before Error); named string types read as their value
 	case "aggslice", "aggstringer", "aggarrmap":
 		// by-value aggregates which reach mutable state through an interior reference
 		txt := string(s.Str)
@@ -418,6 +441,11 @@ func (r *R) WrapText(s string) ItemSpec {
 		}
 		in := StrItem(s)
 		return ItemSpec{K: "cell", Inner: &in}
+	case 3:
+		// other carriers whose documented text form is s: named string types of other packages (html/template's
+		// "trusted" strings, read as their value like any named string), a named string of this package, unnamed
+		// struct types with a promoted GoString or String
+		return ItemSpec{K: Pick(r, []string{"tplhtml", "tplhtml", "tpljs", "tplurl", "tplattr", "mystr", "anonG", "anonPS", "anonSE"}), Str: Q(s)}
 	default:
 		return StrItem(s)
 	}
@@ -460,7 +488,7 @@ func (r *R) AnyItem(fam Fam, maxAtoms, depth int) ItemSpec {
 	case 4:
 		return ItemSpec{K: "bool", Num: int64(r.Intn(2))}
 	case 5:
-		return ItemSpec{K: Pick(r, []string{"mystr", "bytes", "err", "fmtstr", "aggslice", "aggstringer", "aggarrmap"}), Str: Q(r.Str(fam, maxAtoms))}
+		return ItemSpec{K: Pick(r, []string{"mystr", "bytes", "err", "fmtstr", "aggslice", "aggstringer", "aggarrmap", "anonG", "anonPS", "anonSE", "tplhtml", "tpljs", "tplurl", "tplattr", "tplhtml", "jsonnumber"}), Str: Q(r.Str(fam, maxAtoms))}
 	case 6:
 		return ItemSpec{K: Pick(r, []string{"slice", "map", "struct", "structptr", "complex", "complex64", "fmtfloat"}), Str: Q(r.Str(FAscii, 2)), Num: int64(r.Intn(9)), Flt: 1.5}
 	case 7:
